@@ -57,24 +57,25 @@ type entry struct {
 }
 
 type fakePeer struct {
-	name    string
-	addr    netip.Addr
-	as      uint32
-	id      netip.Addr
-	conn    net.Conn
-	mu      sync.Mutex
-	view    map[string]entry // key "prefix#pathid"
-	notifs  []string
-	eors    int
-	updates int
-	keepal  int
-	closed  bool
-	opened  bool
-	times   []string // (virtual second, kind) of received messages
-	opt     *bgp.MarshallingOption
-	sendOpt *bgp.MarshallingOption
-	start   time.Time
-	done    chan struct{}
+	name     string
+	addr     netip.Addr
+	as       uint32
+	id       netip.Addr
+	conn     net.Conn
+	mu       sync.Mutex
+	view     map[string]entry // key "prefix#pathid"
+	notifs   []string
+	eors     int
+	updates  int
+	keepal   int
+	closed   bool
+	opened   bool
+	times    []string // (virtual second, kind) of received messages
+	opt      *bgp.MarshallingOption
+	sendOpt  *bgp.MarshallingOption
+	start    time.Time
+	done     chan struct{}
+	lastOpen *bgp.BGPMessage
 }
 
 func attrSummary(attrs []bgp.PathAttributeInterface) string {
@@ -214,6 +215,7 @@ func (p *fakePeer) send(m *bgp.BGPMessage, opt *bgp.MarshallingOption) error {
 
 // ---- scenario ----
 type world struct {
+	t0       time.Time
 	start    int64
 	t        *testing.T
 	s        *server.BgpServer
@@ -322,12 +324,14 @@ func (w *world) up(n sx.Node) {
 		return
 	}
 	// let the FSM leave Idle (idle-hold timer) before the connection arrives, as a real dialler would retry
-	for i := 0; i < 40; i++ {
-		synctest.Wait()
-		if st := w.state(p.addr.String()); st == "active" || st == "" {
-			break
+	if now, _ := hasOpt(n, 2, "now"); !now {
+		for i := 0; i < 40; i++ {
+			synctest.Wait()
+			if st := w.state(p.addr.String()); st == "active" || st == "" {
+				break
+			}
+			time.Sleep(time.Second)
 		}
-		time.Sleep(time.Second)
 	}
 	a, b := net.Pipe()
 	srv := &pipeConn{Conn: a, local: &net.TCPAddr{IP: w.local.AsSlice(), Port: 179}, remote: &net.TCPAddr{IP: p.addr.AsSlice(), Port: 30000}}
@@ -335,8 +339,49 @@ func (w *world) up(n sx.Node) {
 	p.view = map[string]entry{}
 	p.closed, p.opened = false, false
 	p.eors = 0
-	p.start = time.Now()
+	p.start = w.t0 // message instants are reported in scenario time
 	p.done = make(chan struct{})
+	go p.reader()
+	if err := w.s.VerifPassConn(srv); err != nil {
+		w.out = append(w.out, "(passconn-error)")
+		return
+	}
+	open, hold := w.mkOpen(p, n)
+	if ok, _ := hasOpt(n, 2, "noopen"); ok {
+		return
+	}
+	go func() {
+		p.send(open, nil)
+		if ok, _ := hasOpt(n, 2, "noka"); !ok {
+			p.send(bgp.NewBGPKeepAliveMessage(), nil)
+		}
+	}()
+	if ok, _ := hasOpt(n, 2, "nowait"); !ok {
+		synctest.Wait()
+	}
+	if hold >= 3 {
+		if ok, _ := hasOpt(n, 2, "silent"); !ok {
+			go func(c net.Conn, done chan struct{}) {
+				t := time.NewTicker(time.Duration(hold/3) * time.Second)
+				defer t.Stop()
+				for {
+					select {
+					case <-t.C:
+						b, _ := bgp.NewBGPKeepAliveMessage().Serialize()
+						if _, err := c.Write(b); err != nil {
+							return
+						}
+					case <-done:
+						return
+					}
+				}
+			}(b, p.done)
+		}
+	}
+}
+
+// mkOpen builds the OPEN the fake peer sends, from the options of an (up ...) or (open ...) step
+func (w *world) mkOpen(p *fakePeer, n sx.Node) (*bgp.BGPMessage, uint16) {
 	hold := uint16(0)
 	if ok, v := hasOpt(n, 2, "hold"); ok {
 		var k int
@@ -373,47 +418,28 @@ func (w *world) up(n sx.Node) {
 		caps = append(caps, bgp.NewCapLongLivedGracefulRestart([]*bgp.CapLongLivedGracefulRestartTuple{bgp.NewCapLongLivedGracefulRestartTuple(bgp.RF_IPv4_UC, true, uint32(k))}))
 	}
 	p.sendOpt = sendOpt
-	go p.reader()
-	if err := w.s.VerifPassConn(srv); err != nil {
-		w.out = append(w.out, "(passconn-error)")
-		return
-	}
 	as2 := uint16(p.as)
 	if p.as > 65535 {
 		as2 = bgp.AS_TRANS
 	}
-	open, _ := bgp.NewBGPOpenMessage(as2, hold, p.id, []bgp.OptionParameterInterface{bgp.NewOptionParameterCapability(caps)})
-	if ok, _ := hasOpt(n, 2, "noopen"); ok {
-		return
+	oid := p.id
+	if ok, v := hasOpt(n, 2, "id"); ok { // BGP identifier in the OPEN (0.0.0.0 = invalid)
+		oid = v4(v)
 	}
-	go func() {
-		p.send(open, nil)
-		if ok, _ := hasOpt(n, 2, "noka"); !ok {
-			p.send(bgp.NewBGPKeepAliveMessage(), nil)
-		}
-	}()
-	if ok, _ := hasOpt(n, 2, "nowait"); !ok {
-		synctest.Wait()
+	if ok, v := hasOpt(n, 2, "asn"); ok { // AS announced in the OPEN (2-octet field and capability)
+		var k int
+		fmt.Sscan(v, &k)
+		as2 = uint16(k)
+		caps[2] = bgp.NewCapFourOctetASNumber(uint32(k))
 	}
-	if hold >= 3 {
-		if ok, _ := hasOpt(n, 2, "silent"); !ok {
-			go func(c net.Conn, done chan struct{}) {
-				t := time.NewTicker(time.Duration(hold/3) * time.Second)
-				defer t.Stop()
-				for {
-					select {
-					case <-t.C:
-						b, _ := bgp.NewBGPKeepAliveMessage().Serialize()
-						if _, err := c.Write(b); err != nil {
-							return
-						}
-					case <-done:
-						return
-					}
-				}
-			}(b, p.done)
-		}
+	open, _ := bgp.NewBGPOpenMessage(as2, hold, oid, []bgp.OptionParameterInterface{bgp.NewOptionParameterCapability(caps)})
+	if ok, v := hasOpt(n, 2, "ver"); ok {
+		var k int
+		fmt.Sscan(v, &k)
+		open.Body.(*bgp.BGPOpen).Version = uint8(k)
 	}
+	p.lastOpen = open
+	return open, hold
 }
 
 func routeAttrs(r sx.Node, nhop string) []bgp.PathAttributeInterface {
@@ -487,6 +513,7 @@ func (w *world) obs() {
 	sort.Strings(names)
 	states := map[string]string{}
 	counters := map[string]string{}
+	admins := map[string]string{}
 	w.s.ListPeer(context.Background(), &api.ListPeerRequest{}, func(p *api.Peer) {
 		st := p.State.SessionState.String()
 		states[p.Conf.NeighborAddress] = strings.ToLower(strings.TrimPrefix(st, "SESSION_STATE_"))
@@ -498,6 +525,7 @@ func (w *world) obs() {
 			}
 		}
 		counters[p.Conf.NeighborAddress] = fmt.Sprintf("%d %d", rc, ac)
+		admins[p.Conf.NeighborAddress] = strings.ToLower(strings.TrimPrefix(p.State.AdminState.String(), "ADMIN_STATE_"))
 	})
 	for _, k := range names {
 		p := w.peers[k]
@@ -515,8 +543,8 @@ func (w *world) obs() {
 		if c == "" {
 			c = "0 0"
 		}
-		parts = append(parts, fmt.Sprintf("(peer %s %s (view %s) (notifs %s) (eor %d) (closed %s) (counters %s))", k, st, strings.Join(vs, " "),
-			strings.Join(p.notifs, " "), p.eors, sx.B(p.closed), c))
+		parts = append(parts, fmt.Sprintf("(peer %s %s (view %s) (notifs %s) (eor %d) (closed %s) (counters %s) (admin %s))", k, st, strings.Join(vs, " "),
+			strings.Join(p.notifs, " "), p.eors, sx.B(p.closed), c, admins[p.addr.String()]))
 		p.mu.Unlock()
 	}
 	// global RIB
@@ -560,6 +588,15 @@ func (w *world) step(n sx.Node) {
 	case "notif":
 		if p := w.peers[n.At(1).Atom]; p != nil && p.conn != nil {
 			p.send(bgp.NewBGPNotificationMessage(uint8(n.At(2).Uint()), uint8(n.At(3).Uint()), nil), nil)
+		}
+	case "open":
+		if p := w.peers[n.At(1).Atom]; p != nil && p.conn != nil {
+			m, _ := w.mkOpen(p, n)
+			go p.send(m, nil)
+		}
+	case "rr":
+		if p := w.peers[n.At(1).Atom]; p != nil && p.conn != nil {
+			go p.send(bgp.NewBGPRouteRefreshMessage(1, 0, 1), nil)
 		}
 	case "ka":
 		if p := w.peers[n.At(1).Atom]; p != nil && p.conn != nil {
@@ -659,7 +696,7 @@ func runScenario(t *testing.T, line string) (out string) {
 		g := sc.At(1)
 		s := server.NewBgpServer()
 		go s.Serve()
-		w = &world{start: time.Now().Unix(), t: t, s: s, peers: map[string]*fakePeer{}, global: g, local: v4("10.0.0.254"), peerConf: map[string]*oc.Neighbor{}}
+		w = &world{t0: time.Now(), start: time.Now().Unix(), t: t, s: s, peers: map[string]*fakePeer{}, global: g, local: v4("10.0.0.254"), peerConf: map[string]*oc.Neighbor{}}
 		global := &api.Global{Asn: uint32(g.At(1).Uint()), RouterId: g.At(2).Atom, ListenPort: -1}
 		if err := s.StartBgp(context.Background(), &api.StartBgpRequest{Global: global}); err != nil {
 			w.out = append(w.out, "(startbgp-error)")
@@ -670,6 +707,10 @@ func runScenario(t *testing.T, line string) (out string) {
 			w.addPeer(p)
 		}
 		sync := g.Len() > 3 && g.At(3).Atom == "sync"
+		if sync {
+			// the peers' FSMs leave their initial Idle state (idle-hold 0) before the first event
+			synctest.Wait()
+		}
 		for _, st := range sc.At(3).List[1:] {
 			w.step(st)
 			if sync {
